@@ -42,11 +42,32 @@ Kind(e) == IF ~Joined(e) THEN "orphan" ELSE IF CfgOf(e).member THEN "member" ELS
 ----------------------------------------------------------------------------
 (* options.go *)
 
-\* options{broadcastEonPubKey, eonPubkeyHandler != nil}
-Broadcast == [bc |-> TRUE,  cb |-> FALSE]   \* newDefaultOptions
-Callback  == [bc |-> FALSE, cb |-> TRUE]    \* NoBroadcastEonPublicKey + WithEonPublicKeyHandler (all four flavours)
-Both      == [bc |-> TRUE,  cb |-> TRUE]    \* WithEonPublicKeyHandler alone
-Neither   == [bc |-> FALSE, cb |-> FALSE]   \* NoBroadcastEonPublicKey alone
+\* options{broadcastEonPubKey, eonPubkeyHandler != nil}.  A keyper core is built from a SEQUENCE of
+\* option functions applied to newDefaultOptions(); the publication mode is the resulting SET of
+\* enabled mechanisms (both may be enabled at the same time), not an enumeration.
+DefaultOptions == [bc |-> TRUE, cb |-> FALSE]             \* newDefaultOptions
+ApplyOption(o, opt) ==
+    IF opt = "nobc" THEN [o EXCEPT !.bc = FALSE]           \* NoBroadcastEonPublicKey()
+    ELSE [o EXCEPT !.cb = TRUE]                            \* WithEonPublicKeyHandler(f), f # nil
+RECURSIVE ApplyOptions(_, _)
+ApplyOptions(o, seq) == IF seq = <<>> THEN o ELSE ApplyOptions(ApplyOption(o, Head(seq)), Tail(seq))
+\* the named option sequences of the universes
+OptSeq(name) ==
+    CASE name = "Broadcast"   -> <<>>
+      [] name = "Callback"    -> <<"nobc", "handler">>     \* all four flavours
+      [] name = "CallbackRev" -> <<"handler", "nobc">>
+      [] name = "NoBcTwice"   -> <<"nobc", "nobc", "handler">>
+      [] name = "Both"        -> <<"handler">>             \* default broadcast plus a handler
+      [] name = "BothTwice"   -> <<"handler", "handler">>
+      [] OTHER                -> <<"nobc">>                \* "Neither"
+\* a mode value: the option sequence's name and the flags it yields
+ModeOf(name) == LET m == ApplyOptions(DefaultOptions, OptSeq(name)) IN [bc |-> m.bc, cb |-> m.cb, o |-> name]
+\* the flags of a mode value, recomputed from the options that were given
+Eff(mode) == ApplyOptions(DefaultOptions, OptSeq(mode.o))
+Broadcast == ModeOf("Broadcast")
+Callback  == ModeOf("Callback")
+Both      == ModeOf("Both")
+Neither   == ModeOf("Neither")
 \* validateOptions: "no eon public key broadcast nor handler function provided"
 ValidateOptions(o) == o.bc \/ o.cb
 
